@@ -1,6 +1,7 @@
 """ convert an AST to a simplified normal form """
 
 from functools import partial
+from itertools import chain
 from typing import Iterable, Optional
 
 from clingo.ast import (
@@ -139,7 +140,8 @@ def _convert_old_agg(agg: AST, unqiue_vars: UniqueVariables) -> AST:
             return unqiue_vars.make_unique(AUX_VAR)
         return var
 
-    for old_elem in agg.elements:
+    # pools have to be expanded before the atom is copied into the tuple
+    for old_elem in chain.from_iterable(elem.unpool() for elem in agg.elements):
         terms: list[AST] = []
         atom = old_elem.literal.atom
         old_elem = _exline_interval(old_elem, unqiue_vars)
